@@ -882,6 +882,20 @@ func (w *world) scripted(prop string, sc int, rng *mrand.Rand) {
 				}
 			}
 		}
+	case "C18", "C09": // every flow with tokens at chunk boundaries and request URIs around the cap
+		uri := "/long?" + strings.Repeat("u", []int{10, 1000, 1017, 1018, 1019, 1500, 2040, 2060, 2100}[sc%9])
+		o := w.randomTokOpts(rng, true)
+		o.blob = []int{0, 1400, 1500, 2900, 3000, 4400, 9000, 30000}[sc%8]
+		rt := []string{"", "rt-1", textWithCompressedLen(rng, 2000+4*(sc%3-1), alnum), textWithCompressedLen(rng, 6000, alnum)}[sc%4]
+		res := w.fullLogin(uri, o, rt, rng)
+		if res.ok {
+			w.plain("/x", reqSpec{}, rng)
+			if tok := w.loginTok[w.b]; tok != nil && rt != "" { // refresh to a token of another size
+				w.wait(time.Duration(tok.exp-time.Now().Unix()-10) * time.Second)
+				w.plain("/data", reqSpec{note: "refresh-due request"}, rng)
+			}
+			w.logoutStep(reqSpec{})
+		}
 	case "C15":
 		u := rawURIs[rng.Intn(len(rawURIs))]
 		rs := w.randomReqSpec(rng, "C15")
